@@ -1110,8 +1110,8 @@ class C12(Prop):
     id = "C12"
     cone = ["Properties/C12.vo"]
     prop_file = "Properties/C12.v"
-    theorems = ["C12_first_block_partial", "C12_arguments_read_back"]
-    partial = ["C12_first_block_partial: single blanks between arguments; continuation lines, several blanks, trailing comments and the line numbers of later blocks are tied by S-parse and checked by the print/parse oracle"]
+    theorems = ["C12_first_block_partial", "C12_arguments_read_back", "C12_document_read_back"]
+    partial = ["C12_document_read_back covers documents made of macro lines with single blanks between arguments, for every fuel large enough; text blocks, continuation lines, several blanks and trailing comments are tied by S-parse and checked by the print/parse oracle"]
     assumptions = ["Model/Scan.parse is parser.ParseString on the scanner's rune stream (S-parse: blocks, inline kinds, line numbers, error flag)"]
     ALPHA = [".", "\\", "\"", " ", "\n", "a", "e", "&", "*", "$", "[", "]", "@", "?", "1", "\xa0", "\x00"]
 
